@@ -166,6 +166,16 @@ def infrastructure(ctx: Ctx, oid: str):
     fields = [(ast.unparse(n.target), ast.unparse(n.value) if n.value is not None else None) for n in rc.body if isinstance(n, ast.AnnAssign)]
     want = [("solution", None), ("objective", None), ("iterations", "0"), ("evaluations", "0"), ("status", "Status.OPTIMAL"), ("error", "None"), ("solutions", "None")]
     ctx.ob(oid, "R18 table", None, "Result(solution, objective, iterations=0, evaluations=0, status=Status.OPTIMAL, error=None, solutions=None): field order and defaults", fields == want, f"{fields}: every solver builds its results positionally, and a result without an explicit status is read as OPTIMAL", rel=m.rel, fname="Result", node=rc)
+    # Result stores what the solver hands it: a frozen dataclass without hooks.  Every property is stated about the
+    # fields of the Result; a hook that tidies, rounds or re-labels them changes the answer of every solver at once
+    methods = sorted(n.name for n in rc.body if isinstance(n, (ast.FunctionDef, ast.AsyncFunctionDef)))
+    hooks = [x for x in methods if x not in ("ok", "log", "__repr__", "__str__")]
+    deco = [ast.unparse(d) for d in rc.decorator_list]
+    frozen = any(d.startswith("dataclass(") and "frozen=True" in d for d in deco)
+    forced = [n for n in ast.walk(m.tree) if isinstance(n, ast.Call) and ast.unparse(n.func) in ("object.__setattr__", "setattr", "super().__setattr__")]
+    fnames = {f_[0] for f_ in fields}
+    shadow = [n.name for n in rc.body if isinstance(n, ast.FunctionDef) and n.name in fnames]
+    ctx.ob(oid, "R28 WRITER-DISCIPLINE", None, "Result is a frozen dataclass with no initialisation hook: its fields hold exactly what the solver passed", frozen and not hooks and not forced and not shadow, f"decorators {deco}, extra methods {hooks}, forced writes {[ast.unparse(x)[:40] for x in forced[:2]]}: a `__post_init__` that rounds an objective, strips 'noise' from a solution or re-labels an 'empty' answer rewrites what every solver reports - the objective is no longer the value of the returned solution, labels are no longer the caller's, an empty cover is no longer OPTIMAL", rel=m.rel, fname="Result", node=rc)
     members = [ast.unparse(n.targets[0]) for n in st.body if isinstance(n, ast.Assign)]
     ctx.ob(oid, "R18 table", None, "Status has the members OPTIMAL, FEASIBLE, INFEASIBLE, UNBOUNDED, MAX_ITER", members == ["OPTIMAL", "FEASIBLE", "INFEASIBLE", "UNBOUNDED", "MAX_ITER"], f"{members}", rel=m.rel, fname="Status", node=st)
     okp = m.funcs.get("Result.ok")
@@ -187,6 +197,7 @@ VALIDATORS = {
     "check_in_range": ["if inclusive:\n        if not low <= value <= high:\n            raise ValueError", "elif not low < value < high:\n        raise ValueError"],
     "check_graph_nodes": ["for node, name in nodes:\n        if node not in graph:\n            raise ValueError"],
     "check_integers_valid": ["if not isinstance(idx, int):\n            raise TypeError", "if idx < 0 or idx >= n_vars:\n            raise ValueError", "if idx in seen:\n            raise ValueError", "seen.add(idx)"],
+    "warn_large_coefficients": ["max_val = 0.0\n    for row in A:\n        for val in row:\n            abs_val = abs(val)\n            if abs_val > max_val:\n                max_val = abs_val", "if max_val > threshold:\n        warn("],
     "check_edge_nodes": ["for i, (u, v, _) in enumerate(edges):\n        if u < 0 or u >= n_nodes:\n            raise ValueError", "if v < 0 or v >= n_nodes:\n            raise ValueError"],
 }
 
@@ -209,7 +220,9 @@ def validators_used(ctx: Ctx, mods, oid: str):
         missing = [fr.split("\n")[0] for fr in VALIDATORS[name] if fr not in t]
         raises = sum(1 for x in ast.walk(f.node) if isinstance(x, ast.Raise))
         want_r = sum(fr.count("raise ") for fr in VALIDATORS[name])
-        ctx.ob(oid, "R18 table", f, f"{name} rejects exactly the documented inputs", not missing and raises == want_r, (f"not found: {missing[:2]}; " if missing else "") + f"{raises} raise statement(s), {want_r} expected: a validator that rejects a valid input turns a correct call into an exception, one that lets an invalid input through voids the solver's preconditions", node=f.node)
+        rets = sum(1 for x in ast.walk(f.node) if isinstance(x, ast.Return))
+        want_ret = sum(fr.count("return ") + fr.count("return\n") for fr in VALIDATORS[name])
+        ctx.ob(oid, "R18 table", f, f"{name} rejects exactly the documented inputs", not missing and raises == want_r and rets == want_ret, (f"not found: {missing[:2]}; " if missing else "") + f"{raises} raise statement(s), {want_r} expected; {rets} return statement(s), {want_ret} expected: a validator that rejects a valid input turns a correct call into an exception, one that lets an invalid input through (an early return in front of the tests, a bound taken over one endpoint column only) voids the solver's preconditions - a negative index then addresses a node from the end", node=f.node)
 
 
 # luby() in sat.py is stutter-free only for indices >= 1, which C02 establishes from its call sites; every other
@@ -557,6 +570,48 @@ def generic_sweeps(ctx: Ctx, stutter: bool = True, skip_stutter_modules: tuple =
                         n_budget += 1
                         ctx.ob(g + "17", "R52 BUDGET-PASSTHROUGH", f, f"budget / tolerance parameter `{t_.id}` is never rebound", False, f"`{ast.unparse(n_).splitlines()[0][:80]}`: from here on the routine - and every routine the value is forwarded to - works with another limit than the caller's; a budget cut to what the search 'cannot exceed' ends in MAX_ITER on the very step that would have emptied the frontier or reached the goal", node=n_)
     ctx.ob(g + "17", "R52 BUDGET-PASSTHROUGH", None, "no public function of the anchor files rebinds a budget or tolerance parameter", n_budget == 0, "", rel=mods[0].rel, fname="<anchor files>")
+    # R53: a helper that answers None for 'no result' and a value otherwise has that None looked at by every caller:
+    # the call stands in a test, or its result is bound to a name the caller tests (for None or truth).  Producer and
+    # consumer of a 'nothing' sentinel are usually edited apart - the producer gains a `return None`, the consumer
+    # loses its "dead" test - and the first diverged run subscripts None.
+    n_none = 0
+    n_sites53 = 0
+    for m in mods:
+        for q in sorted(m.funcs):
+            f = m.funcs[q]
+            ftxt = None
+            for c in f.own_nodes():
+                if not isinstance(c, ast.Call):
+                    continue
+                callee = ctx.repo.resolve_call(f, c)
+                if callee is None or callee.module is not f.module:
+                    continue
+                rets_ = [n_ for n_ in own_nodes(callee.node) if isinstance(n_, ast.Return)]
+                none_ = [n_ for n_ in rets_ if n_.value is None or (isinstance(n_.value, ast.Constant) and n_.value.value is None)]
+                if not none_ or len(none_) == len(rets_):
+                    continue
+                n_sites53 += 1
+                holder = [s_ for s_ in own_nodes(f.node) if isinstance(s_, (ast.Assign, ast.AnnAssign, ast.If, ast.While, ast.IfExp, ast.Return, ast.Expr, ast.Assert, ast.NamedExpr, ast.Compare, ast.BoolOp)) and any(x_ is c for x_ in ast.walk(s_))]
+                in_test = any((isinstance(s_, (ast.If, ast.While, ast.IfExp)) and any(x_ is c for x_ in ast.walk(s_.test))) or (isinstance(s_, ast.Assert) and any(x_ is c for x_ in ast.walk(s_.test))) or (isinstance(s_, ast.Compare) and any(isinstance(o_, (ast.Is, ast.IsNot)) for o_ in s_.ops) and (s_.left is c or c in s_.comparators)) for s_ in holder)
+                if in_test:
+                    continue
+                asg = [s_ for s_ in holder if isinstance(s_, (ast.Assign, ast.AnnAssign)) and s_.value is not None and (s_.value is c or (isinstance(s_.value, ast.IfExp) and (s_.value.body is c or s_.value.orelse is c)))]
+                tested = False
+                if asg:
+                    t_ = asg[0].targets[0] if isinstance(asg[0], ast.Assign) else asg[0].target
+                    if isinstance(t_, ast.Name):
+                        nm_ = t_.id
+                        for x_ in own_nodes(f.node):
+                            if isinstance(x_, ast.Compare) and any(isinstance(o_, (ast.Is, ast.IsNot)) for o_ in x_.ops) and isinstance(x_.left, ast.Name) and x_.left.id == nm_:
+                                tested = True
+                            if isinstance(x_, (ast.If, ast.While, ast.IfExp)) and any(isinstance(y_, ast.Name) and y_.id == nm_ for y_ in ([x_.test] if isinstance(x_.test, ast.Name) else ([x_.test.operand] if isinstance(x_.test, ast.UnaryOp) and isinstance(x_.test.op, ast.Not) else (x_.test.values if isinstance(x_.test, ast.BoolOp) else [])))):
+                                tested = True
+                if tested:
+                    continue
+                n_none += 1
+                ctx.ob(g + "18", "R53 NONE-RESULT-TESTED", f, f"the result of `{callee.name}` - which may be None - is tested before it is used", False, f"`{ast.unparse(holder[-1] if holder else c).splitlines()[0][:80]}`: `{callee.name}` returns None on line {none_[0].lineno} for 'no result'; used as a value here, the first run that takes that exit ends in a TypeError instead of a status", node=c)
+    ctx.count("call sites of helpers that may answer None (R53)", n_sites53)
+    ctx.ob(g + "18", "R53 NONE-RESULT-TESTED", None, "every caller of a helper that may answer None tests the answer", n_none == 0, "", rel=mods[0].rel, fname="<anchor files>")
     ctx.ob(g + "15", "R50 PROBLEM-DATA-PASSTHROUGH", None, "no public function of the anchor files replaces a collection parameter by a filtered or rebuilt version of it", n_rebound == 0, "", rel=mods[0].rel, fname="<anchor files>")
     infrastructure(ctx, g + "7")
     validators_used(ctx, mods, g + "7")
